@@ -10,6 +10,7 @@ import common as C
 import fuzzylite as fl
 import gen_engine as G
 from props import c01
+from streams import copy_graph as S_GRAPH
 
 PID = "C13"
 MODULES = ["FlVerif.Props.C13"]
@@ -50,6 +51,11 @@ LEVEL_TEXT = ("Lean theorems about the engine state machine Op.Session (set inpu
               "interleaved operations and in-place edits.")
 LEVEL_NOTE = ("Trusted: Lean kernel, standard axioms, Op.Session / Op.Engine models tied to engine.py by the correspondence, "
               "copy.deepcopy. The no-aliasing clause is correspondence-only (labelled so).")
+RULE += (" Stream `copy-graph` (fv/streams/copy_graph.py, implementation only): engines with Function terms holding substitution "
+         "variables, Linear, Discrete and shape terms, copied fresh or after process steps; every mutable object reachable from the "
+         "edited engine (dict, array, list, attribute-carrying object) is edited in place - on the copy, on the original, on a copy "
+         "of the copy - and the other engines are read after every edit (repr, FLL, values, fuzzy values, memberships of all terms) "
+         "and processed at the end against a freshly built engine.")
 TECHNIQUE = "Lean 4 proof (state-machine invariants over the executable engine model) + differential run of interleaved operation sequences on engines and their copies"
 
 
@@ -341,6 +347,8 @@ def run_impl(desc, ops):
 
 def oracle(case):
     """history-freeness / restart / copy on the implementation itself, against freshly built engines"""
+    if case.get("stream") == S_GRAPH.STREAM:
+        return S_GRAPH.oracle(case)
     desc, ops = case["engine"], case["ops"]
     engines = run_impl(desc, ops)
     for k, E in enumerate(engines):
@@ -400,7 +408,7 @@ def session_fragile(case, base):
 
 
 def key(case):
-    return "session"
+    return case.get("stream") or "session"
 
 
 def gen_cases(ctx):
@@ -500,6 +508,9 @@ def correspond(ctx):
             mism.append({"case": case, "violation": True, "detail": detail, "what": detail})
             if len(mism) > 8:
                 break
+    # "shares no state with the original": in-place edits of every mutable object of one engine, the others watched
+    # (drawn after the sessions above, so those are the same as before for a seed)
+    mism += S_GRAPH.run(ctx)
     return mism
 
 
@@ -508,4 +519,4 @@ def search(ctx):
         ok, d = oracle(case)
         if not ok:
             return [(case, d)]
-    return []
+    return S_GRAPH.search(ctx)
